@@ -688,9 +688,8 @@ def finding_matches(fid, inp, obs, why):
     if fid == "C15-exec-bit":
         return why.startswith("tree: exec: ") and _touched_exec(inp)
     if fid == "C15-existing-path":
-        return _existing_path(inp) and (why.startswith("tree: corrupt") or why.startswith("tree: refused")
-                                        or why.startswith("tree: stale-shelf") or "roundtrip" in why
-                                        or why.startswith("tree: unshelve"))
+        # whatever goes wrong when shelve_deletion re-uses the occupant of the deleted path
+        return _existing_path(inp) and why.startswith("tree: ") and not why.startswith("tree: exec: ")
     if fid == "C15-stale-shelf":
         return why.startswith("tree: stale-shelf")
     if fid == "C15-open-selection":
@@ -850,7 +849,7 @@ def cases(rng, tier):
         yield {"kind": "idops", "names": names, "ops": ops}
     # ---- hunks
     nh = 0
-    target = 45 if quick else 450
+    target = 45 if quick else 220
     while nh < target:
         a, b = gen_text(rng)
         if a == b:
@@ -874,7 +873,7 @@ def cases(rng, tier):
         yield {"kind": "tree", "basis": ALLKINDS_BASIS, "wt": ALLKINDS_WT, "sel": [list(x) for x in s],
                "textmode": rng.choice(["lines", "content"])}
     # ---- tree: random pairs
-    for _ in range(110 if quick else 1500):
+    for _ in range(110 if quick else 700):
         basis = gen_tree(rng, rng.randint(1, 5))
         wt = mutate(rng, basis, rng.randint(1, 5), 10)
         off = spec_offered(basis, wt)
